@@ -60,6 +60,7 @@ type want struct {
 	cycles    []int // nil if the oracle gave up
 	indCycles []int
 	indPaths  []int
+	indSteps  int64 // path extensions the induced counters needed (a measure of the library's cost as well)
 }
 
 const oracleSteps = 3000000
@@ -124,12 +125,14 @@ func oracle(g *rg.G) *want {
 			w.cycles = c
 		}
 	}
-	if c, ok := conn.InducedCycles(g, &conn.Budget{Steps: oracleSteps}); ok {
+	bc, bp := &conn.Budget{Steps: oracleSteps}, &conn.Budget{Steps: oracleSteps}
+	if c, ok := conn.InducedCycles(g, bc); ok {
 		w.indCycles = c
 	}
-	if c, ok := conn.InducedPaths(g, &conn.Budget{Steps: oracleSteps}); ok {
+	if c, ok := conn.InducedPaths(g, bp); ok {
 		w.indPaths = c
 	}
+	w.indSteps = bc.Used + bp.Used
 	return w
 }
 
@@ -159,7 +162,7 @@ func (w *want) relabel(p []int) *want {
 		return r
 	}
 	v := &want{n: n, connected: w.connected, diam: w.diam, rad: w.rad, girth: w.girth, maxMu: w.maxMu,
-		cycles: w.cycles, indCycles: w.indCycles, indPaths: w.indPaths}
+		cycles: w.cycles, indCycles: w.indCycles, indPaths: w.indPaths, indSteps: w.indSteps}
 	v.dist = make([][]int, n)
 	v.ecc = make([]int, n)
 	for i := 0; i < n; i++ {
